@@ -131,6 +131,101 @@ fn witness(name: &str) -> (String, String) {
                 Ok(Err(())) => ("other".into(), "refused but buffer modified".into()),
             }
         }
+
+        // D6: the library rejects its own (DSP0236-conformant) Get Endpoint ID Success response: length table 4 vs 3 data bytes
+        "D6.get_eid_response_rejected" => {
+            let mut buf = [0u8; 64];
+            let n = c.get_response().get_endpoint_id(CompletionCode::Success, 0x34, MCTPGetEndpointIDEndpointType::Simple,
+                MCTPGetEndpointIDEndpointIDType::DynamicEID, false, &mut buf).unwrap();
+            let pkt = buf[..n].to_vec();
+            match c.decode_packet(&pkt).map(|(t, p)| (t, p.to_vec())) {
+                Ok((MessageType::MCtpControl, p)) if p == pkt[12..n - 1].to_vec() => ("fixed".into(), "own Get Endpoint ID response accepted".into()),
+                Err((MessageType::MCtpControl, libmctp::DecodeError::ControlMessage(libmctp::ControlMessageError::InvalidRequestDataLength))) =>
+                    ("reproduces".into(), format!("own response {} rejected with InvalidRequestDataLength", hex(&pkt))),
+                o => ("other".into(), format!("{:?}", o)),
+            }
+        }
+        // D7: query_hop sends command code 0x0E (Get Network ID) instead of 0x0F (Query Hop)
+        "D7.query_hop_code" => {
+            let mut buf = [0u8; 64];
+            let n = c.get_request().query_hop(0x34, 0x55, MessageType::SpdmOverMctp, &mut buf).unwrap();
+            let exp = packet_bytes(0x34, 0x23, 0x00, &[0x80, 0x0F, 0x55, 0x05]);
+            let got = buf[..n].to_vec();
+            if got == exp { ("fixed".into(), "command code 0x0F".into()) }
+            else if got == packet_bytes(0x34, 0x23, 0x00, &[0x80, 0x0E, 0x55, 0x05]) { ("reproduces".into(), format!("query_hop emits {} (command code 0x0e)", hex(&got))) }
+            else { ("other".into(), format!("query_hop emits {}", hex(&got))) }
+        }
+        // D8: responses always carry instance ID 0 instead of the request's
+        "D8.instance_id" => {
+            let req = packet_bytes(0x23, 0x34, 0x00, &[0x80 | 5, 0x02]);
+            let mut rb = [0u8; 64];
+            match c.process_packet(&req, &mut rb) {
+                Ok((_, Some(n))) if n >= 13 => {
+                    let iid = rb[9] & 0x1f;
+                    if iid == 5 { ("fixed".into(), "response echoes instance ID 5".into()) }
+                    else if iid == 0 { ("reproduces".into(), format!("request {} (instance ID 5) answered with instance ID 0: {}", hex(&req), hex(&rb[..n]))) }
+                    else { ("other".into(), format!("instance id {}", iid)) }
+                }
+                o => ("other".into(), format!("{:?}", o.map(|x| x.1))),
+            }
+        }
+        // D9a: control request with a command code above 0x08: unimplemented!() in the request length table
+        "D9a.request_cmd_unimplemented" => {
+            let pkt = packet_bytes(0x23, 0x34, 0x00, &[0x80, 0x0A, 0x00]);
+            match quiet(AssertUnwindSafe(|| c.decode_packet(&pkt).map(|(t, p)| (t, p.to_vec())))) {
+                Err(m) => ("reproduces".into(), format!("decode_packet({}) panics: {}", hex(&pkt), m)),
+                Ok(_) => ("fixed".into(), "returns a value".into()),
+            }
+        }
+        // D9b: Success control response for command 0x07 or above 0x09: unimplemented!() in the response length table
+        "D9b.response_cmd_unimplemented" => {
+            let pkt = packet_bytes(0x23, 0x34, 0x00, &[0x00, 0x07, 0x00, 0x01]);
+            match quiet(AssertUnwindSafe(|| c.decode_packet(&pkt).map(|(t, p)| (t, p.to_vec())))) {
+                Err(m) => ("reproduces".into(), format!("decode_packet({}) panics: {}", hex(&pkt), m)),
+                Ok(_) => ("fixed".into(), "returns a value".into()),
+            }
+        }
+        // D9c: control response with a completion code above 0x05: unreachable!() in CompletionCode::from
+        "D9c.completion_code_unreachable" => {
+            let pkt = packet_bytes(0x23, 0x34, 0x00, &[0x00, 0x02, 0x06, 0x01]);
+            match quiet(AssertUnwindSafe(|| c.decode_packet(&pkt).map(|(t, p)| (t, p.to_vec())))) {
+                Err(m) => ("reproduces".into(), format!("decode_packet({}) panics: {}", hex(&pkt), m)),
+                Ok(_) => ("fixed".into(), "returns a value".into()),
+            }
+        }
+        // D10a: accepted control request with command 0x00 / 0x07 / 0x08: unreachable!()/unimplemented!() in process_packet
+        "D10a.process_cmd_0" | "D10a.process_cmd_7" | "D10a.process_cmd_8" => {
+            let pkt = match name {
+                "D10a.process_cmd_0" => packet_bytes(0x23, 0x34, 0x00, &[0x80, 0x00]),
+                "D10a.process_cmd_7" => packet_bytes(0x23, 0x34, 0x00, &[0x80, 0x07, 0x09]),
+                _ => packet_bytes(0x23, 0x34, 0x00, &[0x80, 0x08, 0x00, 0x01, 0x02]),
+            };
+            let mut rb = [0u8; 64];
+            match quiet(AssertUnwindSafe(|| c.process_packet(&pkt, &mut rb).map(|((t, p), n)| (t, p.to_vec(), n)))) {
+                Err(m) => ("reproduces".into(), format!("process_packet({}) panics: {}", hex(&pkt), m)),
+                Ok(_) => ("fixed".into(), "returns a value".into()),
+            }
+        }
+        // D10b: Set Endpoint ID with operation Reset (2) or an operation byte above 3
+        "D10b.set_eid_reset" | "D10b.set_eid_op_4" => {
+            let op = if name.ends_with("reset") { 2 } else { 4 };
+            let pkt = packet_bytes(0x23, 0x34, 0x00, &[0x80, 0x01, op, 0x42]);
+            let mut rb = [0u8; 64];
+            match quiet(AssertUnwindSafe(|| c.process_packet(&pkt, &mut rb).map(|((t, p), n)| (t, p.to_vec(), n)))) {
+                Err(m) => ("reproduces".into(), format!("process_packet({}) panics: {}", hex(&pkt), m)),
+                Ok(_) => ("fixed".into(), "returns a value".into()),
+            }
+        }
+        // D10c: Get Vendor Defined Message Support with a selector >= the number of configured sets (1 here), and 0xFF
+        "D10c.selector_out_of_range" | "D10c.selector_ff" => {
+            let sel = if name.ends_with("ff") { 0xFF } else { 0x01 };
+            let pkt = packet_bytes(0x23, 0x34, 0x00, &[0x80, 0x06, sel]);
+            let mut rb = [0u8; 64];
+            match quiet(AssertUnwindSafe(|| c.process_packet(&pkt, &mut rb).map(|((t, p), n)| (t, p.to_vec(), n)))) {
+                Err(m) => ("reproduces".into(), format!("process_packet({}) panics: {}", hex(&pkt), m)),
+                Ok(_) => ("fixed".into(), "returns a value".into()),
+            }
+        }
         _ => ("unknown-witness".into(), String::new()),
     }
 }
